@@ -46,10 +46,10 @@ CLAUSES = {
         "corrupted and reordered texts; direct round-trip predicate on the implementation)",
     "single-character substitution in the body is detected":
         "proved for the checksum function (checksum_detects_substitution: any two bodies of equal length over the charset "
-        "differing in exactly one position have different checksums; checksum_detects_window: differences confined to 8 "
+        "differing in exactly one position have different checksums; polymod_detects_window: differences confined to 8 "
         "consecutive symbols); the step from there to `parse` refusing the text is correspondence + the exhaustive "
         "substitution predicate on the real parse",
-    "substitution in the 8 checksum characters is detected": "proved (construct_checksum_mismatch_rejected, construct_checksum_accept_iff)",
+    "substitution in the 8 checksum characters is detected": "proved (construct_checksum_mismatch_rejected, construct_checksum_accept)",
     "N16a (replacing the # separator)": "not an alteration of body or checksum: the regex drops the checksum group and the unaltered "
         "body parses to the same descriptor; predicate `substitution` checks exactly that at the # position",
     "get_address = P2WSH of m <sorted child keys> n CHECKMULTISIG": "proved (get_address_eq_p2wsh, p2wsh_script_bytes)",
